@@ -153,7 +153,7 @@ Definition parse_rfc2822 (p : Model.Parsed.parsed) (s : bytes) : PR (Model.Parse
   let+ '(p, s) :=
     (let* r := char (trim_start s) 58 in
      match r with
-     | POk s_ => consume_number p s_ P2822_SECOND 18
+     | POk s_ => consume_number p (if P2822_SECOND_TRIM then trim_start s_ else s_) P2822_SECOND 18
      | PErr _ => pok (p, s)
      end) in
   let+ s := space s in
